@@ -14,12 +14,18 @@ VERIF = os.path.dirname(os.path.dirname(os.path.abspath(__file__)))
 MATHLIB = os.environ.get("VF_MATHLIB", "/opt/veriftools/mathlib4")
 STD_AXIOMS = {"propext", "Classical.choice", "Quot.sound"}
 
+SOURCE = {"C08": ("Estimators.lean", False)}      # default: ("Marginals.lean", True = append the generated contract links)
+
 THEOREMS = {
     "C01": [("sum_bool_exp", "sum over all bit strings of exp(sum_j h_j x_j) == prod_j (1 + exp x_j), every n"),
             ("marginal_eq_exp_neg_effEnergy", "sum over all hidden configurations of exp(-E(v,h)) == exp(-effective energy), every nv, nh"),
             ("contract_effEnergy", "the effective energy of that lemma is the contract of BinaryRBM.effective_energy (printed from the contract)")],
     "C05": [("conditional_h_given_v", "p(h | v) of the joint distribution == prod_j Bernoulli(sigmoid(c_j + W_j.v)), every nv, nh"),
             ("contract_sigmoid", "that Bernoulli parameter is the contract of prob_h_given_v (printed from the contract)")],
+    "C08": [("normSq_mul_ratio", "|psi|^2 * (psi'/psi) == conj(psi) * psi'  (sampling probability times importance weight)"),
+            ("sigmaX_local_estimator", "sum_sigma |psi(sigma)|^2 Re(psi(sigma^i)/psi(sigma)) == Re <psi| X_i |psi>, every number of sites"),
+            ("sigmaY_local_estimator", "the same for Y_i with the coefficient i*(+-1) that SigmaY.apply multiplies by"),
+            ("sigmaX_site_average", "the |psi|^2-weighted sum of SigmaX.apply's per-sample value == (1/n) sum_i Re <psi| X_i |psi>")],
     "C02": [("sum_bool_cexp", "sum over all auxiliary bit strings of exp(sum_a a_a z_a) == prod_a (1 + exp z_a) over the complex numbers, every n"),
             ("exp_pi_eq_sum_over_aux", "exp(sum_a log|w_a| + i sum_a arg w_a) == sum over all auxiliary configurations (partial trace), w_a != 0, every n"),
             ("abs_one_add_cexp", "|1 + exp(x + i phi)| == sqrt(1 + 2 e^x cos phi + e^2x)  (the real part DensityMatrix.pi computes per auxiliary unit)"),
@@ -47,11 +53,12 @@ def _emitted(ctx):
 
 def run(ctx, prop):
     t0 = time.time()
-    src = open(os.path.join(VERIF, "lean", "Marginals.lean")).read()
-    tmpl = open(os.path.join(VERIF, "lean", "Link.lean.tmpl")).read()
+    fname, linked = SOURCE.get(prop, ("Marginals.lean", True))
+    src = open(os.path.join(VERIF, "lean", fname)).read()
+    tmpl = open(os.path.join(VERIF, "lean", "Link.lean.tmpl")).read() if linked else ""
     names = [n for n, _w in THEOREMS[prop]]
     try:
-        em = _emitted(ctx)
+        em = _emitted(ctx) if linked else {}
         for k, v in em.items():
             tmpl = tmpl.replace("@@%s@@" % k, v)
     except Exception as e:
@@ -92,4 +99,4 @@ def run(ctx, prop):
         else:
             why = "lean exit %s; axioms %s; %s" % (rc, sorted(axioms.get(n, ["<theorem not checked>"])), " | ".join(errors[:3])[:600])
             ctx._rec(nm, "undecided", "lean4+mathlib", secs / len(names), why)
-    ctx.under_contract("lean/Marginals.lean (%s)" % ", ".join(names))
+    ctx.under_contract("lean/%s (%s)" % (fname, ", ".join(names)))
